@@ -45,16 +45,12 @@ def run(ctx):
     recs = vf.read_ndjson(o1) + vf.read_ndjson(o2)
     if len(recs) < len(runs):
         raise vf.Infra("harness replayed %d of %d runs" % (len(recs), len(runs)))
-    # trace validation in chunks (one JVM start per chunk)
-    chunk = 40000
+    # trace validation in chunks (one JVM per chunk, several at a time)
     drift = 0
-    for i in range(0, len(recs), chunk):
-        part = recs[i:i + chunk]
-        vf.write_ndjson(d + "/C33_trace.ndjson", part)
-        tv = vf.tlc(ctx, "TraceReorderer", "TraceReorderer.cfg", workers=1, timeout=1800,
-                    java_opts=["-Xmx8g"])
+    for off, tv in vf.tlc_trace_chunks(ctx, "TraceReorderer", "TraceReorderer.cfg", "C33_trace.ndjson", recs,
+                                       chunk=40000, par=ctx.pick(4, 8)):
         for bad in tv.tagged("BAD"):
-            rec = part[bad["l"] - 1]
+            rec = recs[off + bad["l"] - 1]
             ctx.violation({"monitor": bad["monitor"], "mr": rec["mr"], "mb": rec["mb"], "pushes": rec["pushes"]},
                           "monitor %s fails on the real Reorderer (MaxReordered=%d MaxPendingBytes=%d) for pushes %s: outs=%s held=%s heldBytes=%s"
                           % (bad["monitor"], rec["mr"], rec["mb"], rec["pushes"], rec["outs"], rec["held"], rec["heldBytes"]))
